@@ -17,7 +17,9 @@ require (
 	github.com/ipfs/go-log/v2 v2.2.0
 	github.com/ipfs/go-merkledag v0.3.2
 	github.com/ipfs/go-path v0.0.9
+	github.com/ipfs/go-unixfs v0.2.6
 	github.com/ipfs/ipfs-cluster v0.0.0
+	github.com/ipld/go-car v0.3.1
 	github.com/libp2p/go-libp2p v0.14.3
 	github.com/libp2p/go-libp2p-core v0.8.5
 	github.com/libp2p/go-libp2p-gorpc v0.1.3
